@@ -444,3 +444,17 @@ package cgroup
 //@   arith int
 //@   assigns nothing
 //@   ensures result.1 != nil
+//@ func pkg/cgroup.(*V1).Existing props C20
+//@   arith int
+//@   requires c != nil
+//@   assigns nothing
+//@   ensures result == c.existing
+// the per-controller step of OpenExisting (v1): a controller directory is listed only if it exists (stat succeeded)
+//@ func pkg/cgroup.openExistingV1$1 props C20
+//@   arith int
+//@   requires v1 != nil && cg != nil && cg != addrof(v1)
+//@   requires cap(v1.all) == 0 || sep(cg, elemaddr(v1.all, 0))
+//@   assigns deref(cg), v1.all
+//@   ensures len(v1.all) == old(len(v1.all)) || len(v1.all) == old(len(v1.all)) + 1
+//@   ensures result != nil ==> len(v1.all) == old(len(v1.all))
+//@   ensures v1.existing == old(v1.existing)
